@@ -152,4 +152,16 @@ theorem needE_bound (pr : List UInt8 → Option R) (kvs : List (List UInt8 × Pr
     simp [needE]; omega
 end
 
+
+/-- the fuel a sequence needs is the largest need of its values -/
+theorem seqNeed_le (items : List (Item R)) (n : Nat) (h : ∀ x ∈ items.map (·.1), need x ≤ n) : seqNeed items ≤ n := by
+  induction items with
+  | nil => simp [seqNeed]
+  | cons it items ih =>
+    obtain ⟨v, tx, g⟩ := it
+    simp only [seqNeed]
+    have h1 := h v (by simp)
+    have h2 := ih (fun x hx => h x (by simp at hx ⊢; exact Or.inr hx))
+    omega
+
 end PdfLex
